@@ -886,30 +886,32 @@ void h_find(void)
 	arbitrary_names();
 	small_table();
 	arbitrary_console(0);
+	arbitrary_names(); /* small_table() used slot 0 */
 	C.bufp = C.scratch.buf;
 	VASSUME(CON_LAST_NUL(&C));
 	C.argv[0] = C.scratch.buf; /* FIND_PRE: the command name is the start of the line (TOK post) */
-	struct snap s = snap_of();
 	const char *name = C.scratch.buf;
-	arbitrary_names(); /* small_table() used slot 0 */
+	struct snap s = snap_of();
 	for (unsigned n = 0; n < TBL_SLOTS; n++) {
 		table_of(n);
 		C.cmd = NULL;
-		int want = ref_find(name);
+		/* exact-name lookup written from the statement, on the names themselves */
+		int want = (int)n;
+		for (unsigned i = TBL_SLOTS; i-- > 0;)
+			if (i < n && ref_name_cmp(name, NAMES[i]) == 0)
+				want = (int)i;
 
 		find_command(&C);
 
-		VASSERT(tbl_inv() && tbl_sentinel() == (int)n, "C15 set-up: the table built from the inputs is well formed");
 		VASSERT(C.cmd == cmd_table[want], "C15 find_command selects the first entry whose name equals argv[0] exactly, else the sentinel");
-		if (want < (int)n)
-			VASSERT(C.cmd == &POOL[want] && ref_name_cmp(name, C.cmd->name) == 0, "C15 a registered command is found by its exact name");
-		else
-			VASSERT(C.cmd == &cmd_unknown, "C15 an unknown or empty name selects the sentinel: no registered command runs");
+		VASSERT(want == (int)n ? C.cmd == &cmd_unknown : C.cmd == &POOL[want],
+			"C15 a registered command is found by its exact name; an unknown or empty name selects the sentinel: no registered command runs");
 		VCOVER(want == 30 && n == 31, "last slot of a full table");
 		VCOVER(want == (int)n && name[0] == 0, "empty line");
 		VCOVER(want == (int)n && n > 3 && name[0] == NAMES[2][0] && name[1] == NAMES[2][1] && NAMES[2][2] != 0 && name[2] == 0, "proper prefix of a name is not a match");
 		VCOVER(want < (int)n && name[3] != 0 && name[4] == 0, "four-character name");
 	}
+	VASSERT(tbl_inv() && tbl_sentinel() == TBL_SLOTS - 1, "C15 set-up: the table built from the inputs is well formed");
 	C.cmd = s.cmd;
 	VASSERT(fixed_part_same(&s) && args_same(&s) && scratch_same(&s, 0, sizeof(C.scratch)) && C.bufp == s.bufp && C.pt == s.pt,
 		"C15 find_command writes only c->cmd");
